@@ -130,6 +130,14 @@ fn search_c01() {
         let hbase = reg.as_ptr() as usize;
         let mut offs = boundary(len as u64);
         offs.extend([gbase, gbase.wrapping_add(len as u64 - 1), gbase.wrapping_add(len as u64), gbase.wrapping_sub(1)]);
+        // ... and a slice exactly for ranges inside it
+        for o in boundary(len as u64) { for c in [0u64, 1, 2, len as u64 - 1, len as u64, len as u64 + 1, u64::MAX, u64::MAX - 1] {
+            let fits = (o as u128 + c as u128) <= len as u128;
+            match reg.get_slice(MemoryRegionAddress(o), c as usize) {
+                Ok(sl) => { let p = sl.ptr_guard().as_ptr() as usize; if !fits || sl.len() != c as usize || p != hbase + o as usize { report("C01", format!("region ({len:#x} bytes).get_slice({o:#x}, {c:#x}) handed out a slice of {:#x} bytes at host offset {:#x}: not inside the mapping", sl.len(), p.wrapping_sub(hbase)), &mut found); } }
+                Err(_) => { if fits { report("C01", format!("region ({len:#x} bytes).get_slice({o:#x}, {c:#x}) refused a range inside the region"), &mut found); } }
+            }
+        } }
         for o in offs {
             match reg.get_host_address(MemoryRegionAddress(o)) {
                 Ok(p) => { if o >= len as u64 || p as usize != hbase + o as usize { report("C01", format!("region (guest base {gbase:#x}, {len:#x} bytes).get_host_address({o:#x}) handed out host address {:#x}, outside / not that byte of the mapping at {hbase:#x}", p as usize), &mut found); } }
